@@ -13,9 +13,9 @@ T = {
  "C02": ("two real sessions over a simulated network with a random scheduler; exactly-once/in-order/byte-exact history checker",
          "Runs a real ClientSession against a real ServerSession over two FIFO byte pipes with random fragmentation and interleaving, over chunk/window configurations, and checks the media history at the receiver against the sent list plus phase completion and finished events.",
          "Scripted application behaviour (accept every request); sampled configurations and schedules.", "4/C02"),
- "C03": ("process-level monitors (panic hook, overflow-checks build, counting allocator, CPU-time watchdog, worker exit status) over hostile generated inputs in every session state; Miri slice in thorough",
+ "C03": ("process-level monitors (panic hook, overflow-checks build, counting allocator, per-call thread-CPU clock and per-case CPU-time watchdog, worker exit status) over hostile generated inputs in every session state; valgrind memcheck and Miri slices in thorough",
          "Feeds random, mutated and state-directed hostile byte streams to handshake, deserializer, message decoder and both sessions in all reachable state classes, each library call wrapped by the panic monitor, allocator bound and CPU watchdog in a supervised worker process.",
-         "Memory bound 256*bytes+33MiB and CPU budget are calibrated constants; hang = CPU budget exceeded.", "4/C03"),
+         "Memory bound 256*bytes+33MiB and the CPU limits (4 s per library call, 60 s per case) are calibrated constants. One known finding (F15, KNOWN_FINDINGS.txt) is exhibited by case 1 and reported as KNOWN-FINDING.", "4/C03"),
  "C04": ("generated values through the real encoder and decoder; bit-exact identity oracle",
          "Runs rml_amf0::serialize then deserialize on generated value sequences (all number bit patterns classes, boundary string/name lengths, nesting) and requires Err or exact identity with full consumption.",
          "Reference comparison uses harness value type with f64 bit patterns; object property order ignored.", "4/C04"),
@@ -36,7 +36,7 @@ T = {
          "The model is written from the property text; corners the statement is silent on are recorded, not judged.", "4/C09"),
  "C10": ("executable reference state machine run in lock-step with the real ClientSession over generated and enumerated histories",
          "As C09 for the client workflow with model::client.",
-         "Transaction ids in server answers are integers; fractional ids only exercised for C03.", "4/C10"),
+         "Transaction ids that were never issued (fractional, negative, out of range, NaN) count as unknown (defect F13, fixed).", "4/C10"),
  "C11": ("independent SHA-256/HMAC implementation recomputes digests and signatures of generated packets; all 728 offsets enumerated through the fill hook",
          "Uses the deterministic fill hook to make the library generate packet 1 at every one of the 728 digest offsets for both roles, and feeds reference-built packet 1s at every offset of both schemes; digests, signatures and echoes are recomputed independently.",
          "Exhaustive over offsets, sampled over fillings.", "4/C11"),
@@ -46,7 +46,7 @@ T = {
  "C13": ("independent message-layout reference as differential oracle on MessagePayload <-> RtmpMessage in both directions",
          "Generated messages of every variant and all 256 type ids with reference, random, truncated and extended bodies; type id, body layout, round trip, 15/17 aliasing, passthrough and chunk-size range are checked against refmsg.",
          "Well-formed user-control messages carry exactly the fields their event defines.", "4/C13"),
- "C14": ("worker-process exit status, allocator bound and CPU watchdog while the real decoder runs on a 2 MiB-stack thread over a nesting/count ladder",
+ "C14": ("worker-process exit status, allocator bound, thread-CPU time bound and CPU watchdog while the real decoder runs on a 2 MiB-stack thread over a nesting/count ladder",
          "Decodes nested arrays/objects up to 16 MiB/5 deep, huge count fields and declared lengths with nothing behind them on an ordinary 2 MiB thread stack in a supervised worker.",
          "2 MiB = Rust's default spawned-thread stack is taken as 'an ordinary thread stack'.", "4/C14"),
  "C15": ("partition-independence monitor: every partition's call-by-call outputs compared with the byte-by-byte reference history",
@@ -54,7 +54,7 @@ T = {
          "Acknowledgement packets excluded (per-call by definition, C17); results of a failing call are not 'delivered'.", "4/C15"),
  "C16": ("independent per-csid reassembly as oracle on the real deserializer over interleaved foreign streams",
          "Generates interleavings of multi-chunk messages on distinct csids (no-overlap, audio-inside-video, round-robin, pairwise, random) and compares the library's deliveries with the reference reassembly, in two phases around the first overlap point.",
-         "No open known finding (F10 repaired); regressions at/after the first overlap keep the former signature.", "4/C16"),
+         "No open known finding for C16 (F10 and F14 repaired); regressions at/after the first overlap keep the former signature. Thorough adds a valgrind memcheck slice.", "4/C16"),
  "C17": ("byte-conservation model (W, outstanding) as online monitor on both sessions' acknowledgement output",
          "Small windows exhaustively against call-size patterns, sampled large windows, re-announcements and a >4 GiB volume run; acknowledgements extracted by decoding the returned packets independently.",
          "Call-granular reading of 'since the window was learned' (DESIGN section 5).", "4/C17"),
